@@ -441,3 +441,257 @@ Proof.
               rewrite Ew, (Rb R); reflexivity).
     all: try (unfold refusing; cbn [with_snt with_rf with_cl with_buf with_wt with_ab rf cl wt buf ab snt inq]; intros; rewrite ?orb_true_r; auto).
 Qed.
+
+(* ---------------------------------------------------------------- partition-worker operations *)
+
+Lemma get_lvl_upd l r f lv :
+  get_lvl l (upd r f lv) = if (l =? r) && (r <? length lv) then f (get_lvl r lv) else get_lvl l lv.
+Proof.
+  unfold get_lvl. destruct (Nat.eqb_spec l r) as [->|N]; simpl.
+  - destruct (Nat.ltb_spec r (length lv)); [now rewrite nth_upd_same|now rewrite upd_oob].
+  - apply nth_upd_other. congruence.
+Qed.
+Lemma lbuf_set_chs l r c lv : lbuf (get_lvl l (set_chs r c lv)) = lbuf (get_lvl l lv).
+Proof. unfold set_chs. rewrite get_lvl_upd. destruct ((l =? r) && (r <? length lv)) eqn:E; auto.
+  apply andb_true_iff in E as [E _]. apply Nat.eqb_eq in E. now subst. Qed.
+Lemma chs_set_chs l r c lv : r < length lv -> chs (get_lvl l (set_chs r c lv)) = if l =? r then c else chs (get_lvl l lv).
+Proof. intros H. unfold set_chs. rewrite get_lvl_upd. apply Nat.ltb_lt in H. rewrite H, andb_true_r. destruct (l =? r); auto. Qed.
+Lemma chs_set_lbuf l r ms lv : chs (get_lvl l (set_lbuf r ms lv)) = chs (get_lvl l lv).
+Proof. unfold set_lbuf. rewrite get_lvl_upd. destruct ((l =? r) && (r <? length lv)) eqn:E; auto.
+  apply andb_true_iff in E as [E _]. apply Nat.eqb_eq in E. now subst. Qed.
+Lemma lbuf_set_lbuf l r ms lv : r < length lv -> lbuf (get_lvl l (set_lbuf r ms lv)) = if l =? r then ms else lbuf (get_lvl l lv).
+Proof. intros H. unfold set_lbuf. rewrite get_lvl_upd. apply Nat.ltb_lt in H. rewrite H, andb_true_r. destruct (l =? r); auto. Qed.
+
+Lemma snoc_fin_split l a X r Y : nomark l -> l ++ [Fin a] = X ++ Fin r :: Y -> X = l /\ r = a /\ Y = [].
+Proof.
+  revert X. induction l as [|m l IH]; intros X N E.
+  - destruct X as [|x X]; simpl in E.
+    + injection E as -> ->. auto.
+    + injection E as _ E. destruct X; discriminate.
+  - apply nomark_cons in N as [N1 N2]. destruct X as [|x X]; simpl in E.
+    + injection E as -> _. discriminate.
+    + injection E as -> E. destruct (IH X N2 E) as (-> & -> & ->). auto.
+Qed.
+Lemma nomark_not_in l m : nomark l -> is_marker m = true -> ~ In m l.
+Proof. unfold nomark. rewrite Forall_forall. intros H Hm Hi. apply H in Hi. congruence. Qed.
+
+(* ---------------------------------------------------------------- newHighWatermark *)
+Lemma inv1_mark mx s b r : Inv1 mx s -> cur s = Some b -> hwm s < r -> r <= mx ->
+  nomark (inq (get_bp s b)) -> refusing (get_bp s b) = true -> Inv1 mx (mark s b r).
+Proof.
+  intros I Ec Hr Hrm Nm Rf. pose proof I as I'. dI1 I'.
+  assert (Hb : b < length (bps s)) by auto.
+  assert (Np : ~ pend s r). { intros P. apply Hchs in P. lia. }
+  assert (Lr : r < length (lv s)) by lia.
+  assert (Gb : forall b', get_bp (mark s b r) b' = if b' =? b then with_inq (get_bp s b) (inq (get_bp s b) ++ [Fin (r - 1)]) else get_bp s b').
+  { intros b'. unfold mark. change (get_bp (push_inq s b [Fin (r-1)]) b' = if b' =? b then with_inq (get_bp s b) (inq (get_bp s b) ++ [Fin (r - 1)]) else get_bp s b').
+    rewrite get_bp_push. apply Nat.ltb_lt in Hb. now rewrite Hb, andb_true_r. }
+  assert (Pe : forall c, pend (mark s b r) c <-> c = r \/ pend s c).
+  { intros c. unfold pend, mark. simpl. rewrite chs_set_chs by auto. destruct (Nat.eqb_spec c r); intuition congruence. }
+  assert (Fi : forall b' r', In (Fin r') (inq (get_bp (mark s b r) b')) -> In (Fin r') (inq (get_bp s b')) \/ (b' = b /\ r' = r - 1)).
+  { intros b' r'. rewrite Gb. destruct (Nat.eqb_spec b' b) as [->|N]; auto. simpl. rewrite in_app_iff. simpl.
+    intros [H|[H|[]]]; auto. injection H as <-. auto. }
+  constructor.
+  - unfold mark. simpl. unfold set_chs. now rewrite length_upd.
+  - unfold mark. simpl. auto.
+  - unfold mark. simpl. discriminate.
+  - intros b'. rewrite Gb. destruct (b' =? b); simpl; auto.
+  - exact Hokq.
+  - intros l. unfold mark. simpl. rewrite lbuf_set_chs. apply Hoklv.
+  - intros b'. change (nxt (mark s b r)) with (nxt s). rewrite Gb. destruct (b' =? b); auto.
+    specialize (Hokbp b). unfold pre in *. simpl. rewrite app_assoc. apply Forall_app. split; auto.
+    constructor; auto. simpl. lia.
+  - exact Hnosyn.
+  - intros b'. rewrite Gb. destruct (b' =? b); auto. apply (Hpnm b).
+  - intros b'. rewrite Gb. destruct (b' =? b); auto. apply (Hpref b).
+  - intros l Hl. unfold mark in *. simpl in *. rewrite lbuf_set_chs. apply Hlvtop. lia.
+  - intros l m. unfold mark. simpl. rewrite lbuf_set_chs. apply Hlvdata.
+  - intros c P. apply Pe in P as [->|P]; [unfold mark; simpl; lia|]. apply Hchs in P. unfold mark. simpl. lia.
+  - intros c H. apply Pe. right. now apply Htup.
+  - intros b' r' H. apply Pe. apply Fi in H as [H|[-> ->]]; [right; eapply Htin; eauto|left; lia].
+  - intros b' X r' Y. rewrite Gb. change (cur (mark s b r)) with (@None nat). destruct (Nat.eqb_spec b' b) as [->|N].
+    + simpl. intros E. apply snoc_fin_split in E as (-> & -> & ->); auto. repeat split; auto. left. split; auto. discriminate.
+    + intros E. destruct (Htpos b' X r' Y E) as (A & B & [[C _]|C]); repeat split; auto. left. split; auto. discriminate.
+  - intros b' X Y. rewrite Gb. destruct (Nat.eqb_spec b' b) as [->|N]; [|apply Hspos].
+    simpl. intros E. exfalso. assert (H : In Syn (inq (get_bp s b) ++ [Fin (r-1)])) by (rewrite E; apply in_or_app; right; now left).
+    apply in_app_or in H as [H|[H|[]]]; [|discriminate]. revert H. now apply nomark_not_in.
+  - exact Hu1.
+  - intros c b' H H2. apply Fi in H2 as [H2|[-> E]]; [eapply Hu3; eauto|].
+    apply Htup in H. apply Hchs in H. lia.
+  - intros b1 b2 r' N H1 H2. apply Fi in H1 as [H1|[-> ->]]; apply Fi in H2 as [H2|[-> E2]]; try congruence.
+    + eapply Hu4; eauto.
+    + subst r'. apply Htin in H1. replace (S (r - 1)) with r in H1 by lia. auto.
+    + apply Htin in H2. replace (S (r - 1)) with r in H2 by lia. auto.
+  - intros b' _. rewrite Gb. destruct (Nat.eqb_spec b' b) as [->|N].
+    + simpl. rewrite post_m_app_nomark by auto. simpl. split; auto.
+      unfold nosyn. rewrite in_app_iff. simpl. intros [H|[H|[]]]; [|discriminate]. revert H. now apply nomark_not_in.
+    + apply Hnoncur. rewrite Ec. congruence.
+  - intros b'. rewrite Gb. destruct (Nat.eqb_spec b' b) as [->|N]; [|apply Hmarked].
+    unfold refusing in *. simpl. rewrite Rf. discriminate.
+Qed.
+
+(* ---------------------------------------------------------------- data sent to the current worker *)
+Lemma upd_ext_nth {A} (f : A -> A) d : forall l b, upd b f l = upd b (fun _ => f (nth b l d)) l.
+Proof. induction l as [|z l IH]; intros [|b]; simpl; auto. f_equal. apply IH. Qed.
+
+Lemma push_is_put s b ds : push_inq s b ds = put_bp s b (with_inq (get_bp s b) (inq (get_bp s b) ++ ds)).
+Proof. unfold push_inq, put_bp, get_bp. f_equal. exact (upd_ext_nth (fun x => with_inq x (inq x ++ ds)) bpw0 (bps s) b). Qed.
+
+Lemma app_elem_split {A} (mk : A) ds : ~ In mk ds -> forall X l Y,
+  l ++ ds = X ++ mk :: Y -> exists Y0, l = X ++ mk :: Y0 /\ Y = Y0 ++ ds.
+Proof.
+  intros Nd. induction X as [|x X IH]; intros l Y E.
+  - destruct l as [|m l]; simpl in E.
+    + exfalso. apply Nd. rewrite E. now left.
+    + injection E as -> E. exists l. split; auto.
+  - destruct l as [|m l]; simpl in E.
+    + exfalso. apply Nd. rewrite E. right. apply in_or_app. right. now left.
+    + injection E as -> E. destruct (IH _ _ E) as (Y0 & -> & ->). exists Y0. split; auto.
+Qed.
+Lemma app_marker_split mk ds : is_marker mk = true -> nomark ds -> forall X l Y,
+  l ++ ds = X ++ mk :: Y -> exists Y0, l = X ++ mk :: Y0 /\ Y = Y0 ++ ds.
+Proof. intros Hm Nd. apply app_elem_split. now apply nomark_not_in. Qed.
+
+Lemma inv1_push_data mx s b ds : Inv1 mx s -> cur s = Some b -> nomark ds -> Forall (okitem mx (nxt s)) ds ->
+  Inv1 mx (push_inq s b ds).
+Proof.
+  intros I Ec Nd Okd. pose proof I as I'. dI1 I'.
+  assert (Hb : b < length (bps s)) by auto.
+  rewrite push_is_put. set (x := get_bp s b). set (y := with_inq x (inq x ++ ds)).
+  assert (Fy : forall r, In (Fin r) (inq y) -> In (Fin r) (inq x)).
+  { intros r. unfold y. simpl. rewrite in_app_iff. intros [H|H]; auto. exfalso. revert H. now apply nomark_not_in. }
+  apply inv1_put0; auto; fold x.
+  - apply (Hab b).
+  - change (pre y) with (pre x). unfold y. simpl inq. rewrite app_assoc. apply Forall_app. split; auto. apply (Hokbp b).
+  - apply (Hpnm b).
+  - apply (Hpref b).
+  - intros X r Y E1. unfold y in E1. simpl in E1. apply app_marker_split in E1 as (Y0 & E0 & ->); auto.
+    destruct (Htpos b X r Y0 E0) as (A & B & [[C D]|(Y' & ->)]); [congruence|].
+    repeat split; auto. right. simpl. eauto.
+  - intros X Y E1. unfold y in E1. simpl in E1. apply app_marker_split in E1 as (Y0 & E0 & ->); auto.
+    apply nomark_app. split; auto. eapply Hspos; eauto.
+  - intros H. exfalso. apply H. auto.
+  - unfold y, seg1, pre, sent_items, wt_items, refusing. simpl. rewrite has_m_app.
+    assert (has_m ds = false) as -> by now apply nomark_has_m. rewrite orb_false_r. intros H1 H2.
+    rewrite pre_m_app_marked by auto. apply (Hmarked b); auto.
+Qed.
+
+Lemma inv1_pop_data mx s i r rest : Inv1 mx s -> q s = Data i r :: rest -> Inv1 mx (pop s).
+Proof.
+  intros I E. dI1 I. unfold pop. rewrite E in *. simpl in *. constructor; simpl; auto.
+  - now inversion Hokq.
+  - unfold nosyn in *. simpl in Hnosyn. tauto.
+  - intros c H. apply Htup. now right.
+  - intros c b H. apply Hu3. now right.
+Qed.
+
+Lemma inv1_park mx s i r rest : Inv1 mx s -> q s = Data i r :: rest -> r < hwm s ->
+  Inv1 mx (park_head s r (Data i r)).
+Proof.
+  intros I E Hr. apply (inv1_pop_data mx _ i r rest); [|exact E].
+  dI1 I. assert (Lr : r < length (lv s)) by lia.
+  constructor; simpl; auto.
+  - unfold set_lbuf. now rewrite length_upd.
+  - intros l. rewrite lbuf_set_lbuf by auto. destruct (Nat.eqb_spec l r) as [->|N]; auto.
+    apply Forall_app. split; auto. constructor; auto. rewrite E in Hokq. now inversion Hokq.
+  - intros l Hl. rewrite lbuf_set_lbuf by auto. destruct (Nat.eqb_spec l r) as [->|N]; auto. lia.
+  - intros l m. rewrite lbuf_set_lbuf by auto. destruct (Nat.eqb_spec l r) as [->|N]; auto.
+    rewrite in_app_iff. simpl. intros [H|[<-|[]]]; eauto.
+  - intros c. unfold pend. simpl. rewrite chs_set_lbuf. apply Hchs.
+  - intros c H. unfold pend. simpl. rewrite chs_set_lbuf. now apply Htup.
+  - intros b r' H. unfold pend. simpl. rewrite chs_set_lbuf. eapply Htin; eauto.
+Qed.
+
+(* a fin read by the partition worker *)
+Lemma inv1_fin mx s c rest : Inv1 mx s -> q s = Fin c :: rest -> Inv1 mx (fin_seen (pop s) c).
+Proof.
+  intros I E. dI1 I.
+  assert (Pc : pend s c) by (apply Htup; rewrite E; now left).
+  assert (Lc : c < length (lv s)) by (apply Hchs in Pc; lia).
+  assert (Pe : forall c', c' <> c -> pend (fin_seen (pop s) c) c' <-> pend s c').
+  { intros c' N. unfold pend. simpl. rewrite chs_set_chs by auto. apply Nat.eqb_neq in N. now rewrite N. }
+  assert (Pe2 : forall c', pend (fin_seen (pop s) c) c' -> pend s c').
+  { intros c'. unfold pend. simpl. rewrite chs_set_chs by auto. destruct (c' =? c); auto. discriminate. }
+  rewrite E in *. simpl in Hu1, Hokq, Hnosyn. inversion Hu1 as [|? ? Hn Hd]; subst.
+  constructor; simpl; rewrite ?E; simpl; auto.
+  - unfold set_chs. now rewrite length_upd.
+  - now inversion Hokq.
+  - intros l. rewrite lbuf_set_chs. auto.
+  - unfold nosyn in *. simpl in Hnosyn. tauto.
+  - intros l Hl. rewrite lbuf_set_chs. auto.
+  - intros l m. rewrite lbuf_set_chs. auto.
+  - intros c' H. apply Pe; [|apply Htup; now right]. intros ->. apply Hn. now apply in_fins.
+  - intros b r H. apply Pe; [|eapply Htin; eauto]. intros <-. eapply Hu3; eauto. now left.
+  - intros c' b H. apply Hu3. now right.
+Qed.
+
+
+(* ---------------------------------------------------------------- updateLeader succeeded: a worker is chosen and gets a syn *)
+Definition pickbp (s : st) (b0 : nat) : st := let '(s1, b') := pick s b0 in set_cur (push_inq s1 b' [Syn]) (Some b').
+
+Lemma inv1_pickbp mx s b0 : Inv1 mx s -> cur s = None -> (forall b, acc (get_bp s b) = []) -> Inv1 mx (pickbp s b0).
+Proof.
+  intros I Ec Ha. unfold pickbp. destruct (pick s b0) as [s1 b'] eqn:Ep.
+  destruct (pick_spec _ _ _ _ Ep) as (G & Hb' & Hlen1 & Hcl & Hab' & Eq & Erq & Eh & Elv & Ecur & _ & _ & Enx & _ & _).
+  pose proof I as I'. dI1 I'.
+  assert (Gb : forall b, get_bp (set_cur (push_inq s1 b' [Syn]) (Some b')) b =
+                         if b =? b' then with_inq (get_bp s b') (inq (get_bp s b') ++ [Syn]) else get_bp s b).
+  { intros b. change (get_bp (push_inq s1 b' [Syn]) b = if b =? b' then with_inq (get_bp s b') (inq (get_bp s b') ++ [Syn]) else get_bp s b).
+    rewrite get_bp_push, !G. apply Nat.ltb_lt in Hb'. now rewrite Hb', andb_true_r. }
+  set (x := get_bp s b') in *.
+  assert (Nc : cur s <> Some b') by (rewrite Ec; discriminate).
+  destruct (Hnoncur b' Nc) as [Px Sx]. fold x in Px, Sx.
+  assert (Fi : forall b r, In (Fin r) (inq (get_bp (set_cur (push_inq s1 b' [Syn]) (Some b')) b)) -> In (Fin r) (inq (get_bp s b))).
+  { intros b r. rewrite Gb. destruct (Nat.eqb_spec b b') as [->|N]; auto. simpl. rewrite in_app_iff. simpl.
+    intros [H|[H|[]]]; auto. discriminate. }
+  constructor; simpl; rewrite ?Eq, ?Erq, ?Eh, ?Elv, ?Enx; auto.
+  - intros b E. injection E as <-. rewrite length_upd. exact Hb'.
+  - intros b. rewrite Gb. destruct (b =? b'); auto.
+  - intros b. rewrite Gb. destruct (b =? b'); auto. simpl.
+    change (pre (with_inq x (inq x ++ [Syn]))) with (pre x). rewrite app_assoc. apply Forall_app. split; [apply Hokbp|repeat constructor].
+  - intros b. rewrite Gb. destruct (b =? b'); auto. apply (Hpnm b').
+  - intros b. rewrite Gb. destruct (b =? b'); auto. apply (Hpref b').
+  - intros c. unfold pend. simpl. rewrite ?Elv, ?Eh. apply Hchs.
+  - intros c. unfold pend. simpl. rewrite Elv. apply Htup.
+  - intros b r H. apply Fi in H. unfold pend. simpl. rewrite Elv. eapply Htin; eauto.
+  - intros b X r Y. rewrite Gb. destruct (Nat.eqb_spec b b') as [->|N].
+    + simpl. intros E. apply app_elem_split in E as (Y0 & E0 & ->); [|intros [H|[]]; discriminate].
+      destruct (Htpos b' X r Y0 E0) as (A & B & [[-> _]|(Y' & ->)]); repeat split; auto; right; simpl; eauto.
+    + intros E. destruct (Htpos b X r Y E) as (A & B & [[C D]|C]); repeat split; auto.
+      left. split; auto. congruence.
+  - intros b X Y. rewrite Gb. destruct (Nat.eqb_spec b b') as [->|N]; [|apply Hspos].
+    simpl. intros E.
+    destruct Y as [|y Y] using rev_ind; [constructor|].
+    exfalso. clear IHY. rewrite app_comm_cons, app_assoc in E. apply app_inj_tail in E as [E _].
+    apply Sx. rewrite E. apply in_or_app. right. now left.
+  - intros c b H H2. apply Fi in H2. eapply Hu3; eauto.
+  - intros b1 b2 r N H1 H2. apply Fi in H1, H2. eapply Hu4; eauto.
+  - intros b N. rewrite Gb. destruct (Nat.eqb_spec b b') as [->|N']; [congruence|]. apply Hnoncur. rewrite Ec. discriminate.
+  - intros b. rewrite Gb. destruct (Nat.eqb_spec b b') as [->|N]; [|apply Hmarked].
+    unfold refusing, seg1. simpl. change (pre (with_inq x (inq x ++ [Syn]))) with (pre x).
+    intros _ R. specialize (Ha b'). fold x in Ha. destruct (acc_doom_healthy x R) as [A _]. rewrite A in Ha.
+    rewrite datas_app in *. apply app_eq_nil in Ha as [Ha1 Ha2]. rewrite Ha1. simpl.
+    apply datas_nil_iff. intros i r H. revert i r H. apply datas_nil_iff.
+    assert (Hs : sub (pre_m (inq x ++ [Syn])) (inq x ++ [Syn])).
+    { clear. induction (inq x ++ [Syn]) as [|m l IH]; simpl; [constructor|]. destruct (is_marker m); [apply sub_nil_l|now apply sub_keep]. }
+    apply datas_nil_iff. intros i r H. apply (sub_in _ _ _ Hs) in H. apply in_app_or in H as [H|[H|[]]]; [|discriminate].
+    revert H. apply datas_nil_iff. auto.
+Qed.
+
+(* ---------------------------------------------------------------- flushRetryBuffers: one level down *)
+Definition lower (s : st) (h' : nat) : st := set_lv (set_hwm s h') (set_lbuf h' [] (lv s)).
+
+Lemma inv1_lower mx s h' : Inv1 mx s -> hwm s = S h' -> ~ pend s (S h') -> Inv1 mx (lower s h').
+Proof.
+  intros I Eh Np. dI1 I. assert (Lh : h' < length (lv s)) by lia.
+  constructor; simpl; auto.
+  - unfold set_lbuf. now rewrite length_upd.
+  - lia.
+  - intros l. rewrite lbuf_set_lbuf by auto. destruct (l =? h'); auto.
+  - intros l Hl. rewrite lbuf_set_lbuf by auto. destruct (Nat.eqb_spec l h'); auto. apply Hlvtop. lia.
+  - intros l m. rewrite lbuf_set_lbuf by auto. destruct (Nat.eqb_spec l h') as [->|N]; [intros []|auto].
+  - intros c. unfold pend. simpl. rewrite chs_set_lbuf. intros P.
+    assert (c <> S h') by (intros ->; now apply Np). apply Hchs in P. lia.
+  - intros c H. unfold pend. simpl. rewrite chs_set_lbuf. now apply Htup.
+  - intros b r H. unfold pend. simpl. rewrite chs_set_lbuf. eapply Htin; eauto.
+Qed.
